@@ -1,5 +1,6 @@
-// gen_c10: reads from the working tree WHICH VARIANT of the two repair sites of property C10 the code
-// implements and writes coq/Gen/C10Cfg.v (Model/Pools.v is parametric in the variant):
+// gen_c10: reads from the working tree WHICH VARIANT of the repair sites of property C10 the code
+// implements (claim owner comparison, end-blocker vote deletion, votes for signers only, share-denom
+// prefix / share conversion / burn path in Undelegate) and writes coq/Gen/C10Cfg.v (Model/Pools.v is parametric in the variant):
 //   - x/multistaking/keeper/msg_server.go ClaimUndelegation: is undelegation.Address compared with
 //     msg.Sender (and the claim refused on a difference) before the coins are sent;
 //   - x/distributor/keeper/abci.go EndBlocker: which votes the loop over all validator votes deletes
@@ -144,17 +145,99 @@ func endRule(repo string) int {
 	return rule
 }
 
+// BeginBlocker: for which validators of the last commit a vote is recorded
+func signersOnly(repo string) bool {
+	fd := findFunc(parse(filepath.Join(repo, "x/distributor/keeper/abci.go")), "BeginBlocker")
+	if fd == nil {
+		die("distributor Keeper.BeginBlocker not found")
+	}
+	res, loops := false, 0
+	ast.Inspect(fd.Body, func(n ast.Node) bool {
+		rs, ok := n.(*ast.RangeStmt)
+		if !ok || !strings.Contains(src(rs.Body), "SetValidatorVote(") {
+			return true
+		}
+		loops++
+		if src(rs.X) != "req.LastCommitInfo.GetVotes()" || len(rs.Body.List) != 1 || src(rs.Value) != "bondedVote" {
+			die("BeginBlocker: vote-recording loop of unknown shape: %s", src(rs))
+		}
+		call := "k.SetValidatorVote(ctx,bondedVote.Validator.Address,ctx.BlockHeight())"
+		switch st := rs.Body.List[0].(type) {
+		case *ast.ExprStmt:
+			if src(st) != call {
+				die("BeginBlocker: unknown vote-recording call: %s", src(st))
+			}
+		case *ast.IfStmt:
+			if st.Init != nil || st.Else != nil || src(st.Cond) != "bondedVote.SignedLastBlock" || len(st.Body.List) != 1 || src(st.Body.List[0]) != call {
+				die("BeginBlocker: unknown vote-recording condition: %s", src(st))
+			}
+			res = true
+		default:
+			die("BeginBlocker: vote-recording loop of unknown shape: %s", src(rs))
+		}
+		return false
+	})
+	if loops != 1 {
+		die("BeginBlocker: expected exactly one vote-recording loop, found %d", loops)
+	}
+	return res
+}
+
+// Undelegate: the prefix looked for before dropping the delegator, the share conversion, the burn path
+func undelegateFacts(repo string) (prefixOK bool, redeemRule int, burnRegistry bool) {
+	fd := findFunc(parse(filepath.Join(repo, "x/multistaking/keeper/delegation.go")), "Undelegate")
+	if fd == nil {
+		die("multistaking Keeper.Undelegate not found")
+	}
+	body := src(fd.Body)
+	switch {
+	case strings.Contains(body, `prefix:=fmt.Sprintf("v%d_",pool.Id)`):
+		prefixOK = false
+	case strings.Contains(body, `prefix:=fmt.Sprintf("v%d/",pool.Id)`), strings.Contains(body, `prefix:=types.GetPoolPrefix(pool.Id)`):
+		prefixOK = true
+	default:
+		die("Undelegate: unknown share-denom prefix")
+	}
+	if !strings.Contains(body, "if!strings.Contains(balances.String(),prefix){k.RemovePoolDelegator(ctx,pool.Id,delegator)}") {
+		die("Undelegate: unknown delegator-removal condition")
+	}
+	switch {
+	case strings.Contains(body, "poolCoins:=types.GetPoolCoins(pool,msg.Amounts)"):
+		redeemRule = 0
+	case strings.Contains(body, "poolCoins,err:=types.GetRedeemPoolCoins(pool,msg.Amounts)iferr!=nil{returnerr}"):
+		redeemRule = 1
+		f := findFunc(parse(filepath.Join(repo, "x/multistaking/types/pool.go")), "GetRedeemPoolCoins")
+		if f == nil || !strings.Contains(src(f.Body), "burn:=coin.Amount.Mul(shares).Add(stake.SubRaw(1)).Quo(stake)") ||
+			!strings.Contains(src(f.Body), "ifcoin.Amount.IsNegative()||!stake.IsPositive(){returnnil,ErrInsufficientTotalStakingTokens}") {
+			die("GetRedeemPoolCoins: not the pro-rata rounded-up conversion the model has")
+		}
+	default:
+		die("Undelegate: unknown share conversion")
+	}
+	switch {
+	case strings.Contains(body, "k.bankKeeper.BurnCoins(ctx,types.ModuleName,poolCoins)"):
+		burnRegistry = false
+	case strings.Contains(body, "k.tokenKeeper.BurnCoins(ctx,types.ModuleName,poolCoins)"):
+		burnRegistry = true
+	default:
+		die("Undelegate: unknown burn of the share tokens")
+	}
+	return
+}
+
 func main() {
 	repo := flag.String("repo", "/repo", "repository root")
 	out := flag.String("out", "", "output .v file")
 	flag.Parse()
 	oc := ownerCheck(*repo)
 	er := endRule(*repo)
+	so := signersOnly(*repo)
+	po, rr, br := undelegateFacts(*repo)
 	var b strings.Builder
-	b.WriteString("(* GENERATED by /verif/harness/cmd/gen_c10 from x/multistaking/keeper/msg_server.go (ClaimUndelegation)\n")
-	b.WriteString("   and x/distributor/keeper/abci.go (EndBlocker) -- do not edit *)\n")
+	b.WriteString("(* GENERATED by /verif/harness/cmd/gen_c10 from x/multistaking/keeper/msg_server.go (ClaimUndelegation),\n")
+	b.WriteString("   x/multistaking/keeper/delegation.go (Undelegate) and x/distributor/keeper/abci.go (BeginBlocker, EndBlocker) -- do not edit *)\n")
 	b.WriteString("From Sekai Require Import Base.Prelude Model.Pools.\n")
-	b.WriteString(fmt.Sprintf("Definition tree_variant : variant := mkVariant %v %d.\n", oc, er))
+	b.WriteString(fmt.Sprintf("Definition tree_variant : variant := mkVariant %v %d %v %v %d %v.\n", oc, er, so, po, rr, br))
 	if *out == "" {
 		fmt.Print(b.String())
 		return
@@ -162,5 +245,5 @@ func main() {
 	if err := os.WriteFile(*out, []byte(b.String()), 0o644); err != nil {
 		die("%v", err)
 	}
-	fmt.Fprintf(os.Stderr, "gen_c10: owner_check=%v end_rule=%d\n", oc, er)
+	fmt.Fprintf(os.Stderr, "gen_c10: owner_check=%v end_rule=%d signers_only=%v prefix_ok=%v redeem_rule=%d burn_registry=%v\n", oc, er, so, po, rr, br)
 }
